@@ -445,6 +445,12 @@ class TermDomain(Domain):
             return T("discr", v)
         return None
 
+    def field_of(self, v, i):
+        """A field (or enum payload) of a symbolic value is a term over it, so that provenance survives pattern matching."""
+        if isinstance(v, (T, Sym)):
+            return T("field%d" % i, v)
+        return TOP
+
 
 class EffectDomain(TermDomain):
     """TermDomain in which every unknown callee is an uninterpreted term and designated callees are logged as effects.
